@@ -223,8 +223,12 @@ func (t *c17T) zeroOf(ty string) (string, error) {
 		return `""%string`, nil
 	case ty == "int":
 		return "0%Z", nil
-	case strings.HasPrefix(ty, "*"), strings.HasPrefix(ty, "map["), ty == "error", ty == "func":
+	case strings.HasPrefix(ty, "*"), ty == "error", ty == "func", c17IsToolIface(ty):
 		return "None", nil
+	case strings.HasPrefix(ty, "map["):
+		return "map_empty", nil
+	case ty == "bool":
+		return "false", nil
 	case strings.HasPrefix(ty, "[]"):
 		return "[]", nil
 	}
@@ -232,6 +236,53 @@ func (t *c17T) zeroOf(ty string) (string, error) {
 		return "zero_" + ty, nil
 	}
 	return "", fmt.Errorf("%s: no zero value for type %s", t.fn, ty)
+}
+
+// the interfaces a tool.BaseTool value may also implement: such a value is the tool itself, or nil
+func c17IsToolIface(ty string) bool {
+	return ty == "tool.StreamableTool" || ty == "tool.InvokableTool"
+}
+
+// the Gallina type of a declared local (the zero value alone does not determine it)
+func c17GallinaType(e ast.Expr) (string, bool) {
+	ty := c17Type(e)
+	switch {
+	case c17IsToolIface(ty):
+		return "option BT", true
+	case ty == "*executorMeta":
+		return "option META", true
+	case ty == "bool":
+		return "bool", true
+	case ty == "string":
+		return "string", true
+	case ty == "int":
+		return "Z", true
+	}
+	if ft, ok := e.(*ast.FuncType); ok { // the two run functions of a tool
+		ps, rs := c17Params(ft.Params), c17Params(ft.Results)
+		if len(ps) == 3 && ps[0].typ == "context.Context" && ps[1].typ == "string" && ps[2].typ == "[]tool.Option" && len(rs) == 2 && rs[1].typ == "error" {
+			switch rs[0].typ {
+			case "string":
+				return "option (CTX -> string -> list TOPT -> tres)", true
+			case "*schema.StreamReader[string]":
+				return "option (CTX -> string -> list TOPT -> sres)", true
+			}
+		}
+	}
+	return "", false
+}
+
+// a slice the code tests against nil is an option in Gallina
+func (t *c17T) isOptSlice(e ast.Expr) bool {
+	switch x := e.(type) {
+	case *ast.ParenExpr:
+		return t.isOptSlice(x.X)
+	case *ast.SelectorExpr:
+		return c17StructOf(t.typeOf(x.X)) == "toolsNodeOptions" && x.Sel.Name == "ToolList"
+	case *ast.Ident:
+		return t.fn == "WithToolList" && x.Name == "tool"
+	}
+	return false
 }
 
 // ---- expressions
@@ -292,6 +343,10 @@ func (t *c17T) expr(e ast.Expr) ([]string, string, error) {
 			if _, local := t.lookup(id.Name); !local {
 				return nil, id.Name + "_" + x.Sel.Name, nil // a package-level constant
 			}
+		}
+		if c17IsToolIface(t.typeOf(x.X)) { // a method value of a tool seen through one of its interfaces (nil for a nil value)
+			p, s, err := t.expr(x.X)
+			return p, "(BT_" + x.Sel.Name + " " + s + ")", err
 		}
 		st := c17StructOf(t.typeOf(x.X))
 		if _, ok := t.fieldType(st, x.Sel.Name); !ok {
@@ -496,6 +551,9 @@ func (t *c17T) call(x *ast.CallExpr) ([]string, string, error) {
 			p, s, err := t.expr(x.Args[0])
 			return p, "(sl_len " + s + ")", err
 		case "make":
+			if len(x.Args) == 1 && strings.HasPrefix(c17Type(x.Args[0]), "map[") {
+				return nil, "map_empty", nil
+			}
 			if len(x.Args) < 2 {
 				return nil, "", t.errf(x, "make without a length")
 			}
@@ -539,10 +597,18 @@ func (t *c17T) call(x *ast.CallExpr) ([]string, string, error) {
 			}
 			return app(fmt.Sprintf("call_func%d %s", len(as), f.Name), pre, as)
 		}
-		if _, ok := t.funcs[f.Name]; ok || f.Name == "newRunnablePacker" || f.Name == "setToolCallInfo" {
+		if _, ok := t.funcs[f.Name]; ok || f.Name == "newRunnablePacker" || f.Name == "setToolCallInfo" || f.Name == "parseExecutorInfoFromComponent" {
 			pre, as, err := t.args(x)
 			if err != nil {
 				return nil, "", err
+			}
+			for i, a := range x.Args {
+				if _, isLit := a.(*ast.FuncLit); isLit && f.Name == "newRunnablePacker" {
+					as[i] = "(Some " + as[i] + ")" // a function value that is not nil
+				}
+				if t.isOptSlice(a) { // handed to a parameter that is a plain slice
+					as[i] = "(slice_of " + as[i] + ")"
+				}
 			}
 			return app(f.Name, pre, as)
 		}
@@ -744,6 +810,16 @@ func (t *c17T) assigned(l []ast.Stmt) []string {
 				if c, ok := s.X.(*ast.CallExpr); ok {
 					for _, m := range t.mutatedArgs(c) {
 						mark(m)
+					}
+				}
+			case *ast.DeclStmt:
+				if gd, ok := s.Decl.(*ast.GenDecl); ok {
+					for _, sp := range gd.Specs {
+						if vs, ok := sp.(*ast.ValueSpec); ok {
+							for _, n := range vs.Names {
+								declared[n.Name] = true
+							}
+						}
 					}
 				}
 			case *ast.RangeStmt:
@@ -985,13 +1061,36 @@ func (t *c17T) stmts(l []ast.Stmt, fall string) (string, error) {
 	switch x := s.(type) {
 	case *ast.ReturnStmt:
 		return t.ret(x)
-	case *ast.DeclStmt: // var err error
-		if gd, ok := x.Decl.(*ast.GenDecl); ok && gd.Tok == token.VAR && len(gd.Specs) == 1 {
-			if vs, ok := gd.Specs[0].(*ast.ValueSpec); ok && len(vs.Names) == 1 && vs.Names[0].Name == "err" && len(vs.Values) == 0 {
-				return t.stmts(rest, fall)
+	case *ast.DeclStmt: // var err error; var ( a T; b U ... ): zero values
+		gd, ok := x.Decl.(*ast.GenDecl)
+		if !ok || gd.Tok != token.VAR {
+			return "", t.errf(nil, "declaration not recognised")
+		}
+		var lets string
+		for _, sp := range gd.Specs {
+			vs, ok := sp.(*ast.ValueSpec)
+			if !ok || len(vs.Values) != 0 || vs.Type == nil {
+				return "", t.errf(nil, "declaration not recognised")
+			}
+			for _, n := range vs.Names {
+				if n.Name == "err" {
+					continue
+				}
+				ty := c17Type(vs.Type)
+				z, err := t.zeroOf(ty)
+				if err != nil {
+					return "", err
+				}
+				gty, ok := c17GallinaType(vs.Type)
+				if !ok {
+					return "", t.errf(vs.Type, "declaration of a variable of this type")
+				}
+				t.declare(n.Name, ty)
+				lets += "let " + n.Name + " : " + gty + " := " + z + " in\n"
 			}
 		}
-		return "", t.errf(nil, "declaration not recognised")
+		k, err := t.stmts(rest, fall)
+		return lets + k, err
 	case *ast.AssignStmt:
 		return t.assign(x, rest, fall)
 	case *ast.IfStmt:
@@ -1067,26 +1166,40 @@ func (t *c17T) assign(x *ast.AssignStmt, rest []ast.Stmt, fall string) (string, 
 		switch f := c.Fun.(type) {
 		case *ast.Ident:
 			fname = f.Name
-		case *ast.SelectorExpr: // a method of this file on a receiver variable
+		case *ast.SelectorExpr: // a method of this file on a receiver variable, or a method of a tool
 			fname = f.Sel.Name
 			p, s, err := t.expr(f.X)
 			if err != nil || len(p) > 0 {
 				return "", t.errf(c, "receiver of a method call")
 			}
 			recv = []string{s}
+			if t.typeOf(f.X) == "tool.BaseTool" {
+				if fname != "Info" {
+					return "", t.errf(c, "method of a tool with an error result")
+				}
+				fname = "BT_Info"
+			}
 		}
 		fd, ok := t.funcs[fname]
-		if !ok && fname != "convTools" {
+		if !ok && fname != "BT_Info" {
 			return "", t.errf(c, "call of an unknown function with an error result")
 		}
 		pre, as, err := t.args(c)
 		if err != nil {
 			return "", err
 		}
-		if ok && fd.Type.Results != nil && len(fd.Type.Results.List) > 0 {
-			t.declare(v.Name, c17Type(fd.Type.Results.List[0].Type))
-		} else if _, known := t.lookup(v.Name); !known || define {
-			t.declare(v.Name, "*toolsTuple")
+		for i, a := range c.Args {
+			if t.isOptSlice(a) {
+				as[i] = "(slice_of " + as[i] + ")"
+			}
+		}
+		switch {
+		case fname == "BT_Info":
+			t.declare(v.Name, "*schema.ToolInfo")
+		case fd.Type.Results != nil && len(fd.Type.Results.List) > 0:
+			if _, known := t.lookup(v.Name); !known || define {
+				t.declare(v.Name, c17Type(fd.Type.Results.List[0].Type))
+			}
 		}
 		k, err := t.stmts(rest[1:], fall)
 		if err != nil {
@@ -1241,7 +1354,35 @@ func (t *c17T) assign(x *ast.AssignStmt, rest []ast.Stmt, fall string) (string, 
 		pre = append(pre, pi...)
 		e := t.fresh()
 		line = "do " + arr.Name + " <- sl_upd " + arr.Name + " " + idx + " (fun " + e + " => set_" + st + "_" + l.Sel.Name + " " + e + " " + rhs + ");\n"
-	case *ast.IndexExpr: // xs[i] = e
+	case *ast.IndexExpr: // xs[i] = e ; x.f[k] = e (a map or a slice held in a field of a local struct)
+		if sel, ok := l.X.(*ast.SelectorExpr); ok {
+			base, ok := sel.X.(*ast.Ident)
+			if !ok {
+				return "", t.errf(l, "left-hand side")
+			}
+			st := c17StructOf(t.typeOf(base))
+			fty, ok := t.fieldType(st, sel.Sel.Name)
+			if !ok {
+				return "", t.errf(l, "field %s of %q not known", sel.Sel.Name, st)
+			}
+			pi, idx, err := t.expr(l.Index)
+			if err != nil {
+				return "", err
+			}
+			pre = append(pre, pi...)
+			get := "(" + st + "_" + sel.Sel.Name + " " + base.Name + ")"
+			set := "set_" + st + "_" + sel.Sel.Name + " " + base.Name
+			switch {
+			case strings.HasPrefix(fty, "map["):
+				line = "let " + base.Name + " := (" + set + " (map_set " + get + " " + idx + " " + rhs + ")) in\n"
+			case strings.HasPrefix(fty, "[]") && t.mode == "res":
+				v := t.fresh()
+				line = "do " + v + " <- sl_set " + get + " " + idx + " " + rhs + ";\nlet " + base.Name + " := (" + set + " " + v + ") in\n"
+			default:
+				return "", t.errf(l, "left-hand side")
+			}
+			break
+		}
 		arr, ok := l.X.(*ast.Ident)
 		if !ok || !strings.HasPrefix(t.typeOf(arr), "[]") || t.mode != "res" {
 			return "", t.errf(l, "left-hand side")
@@ -1263,12 +1404,37 @@ func (t *c17T) assign(x *ast.AssignStmt, rest []ast.Stmt, fall string) (string, 
 }
 
 func (t *c17T) ifStmt(x *ast.IfStmt, rest []ast.Stmt, fall string) (string, error) {
-	if x.Init != nil {
-		return "", t.errf(x.Cond, "if with an init statement")
+	initLets := ""
+	if x.Init != nil { // if v, ok = x.(tool.I); ok { ... }
+		as, ok := x.Init.(*ast.AssignStmt)
+		if !ok || as.Tok != token.ASSIGN || len(as.Lhs) != 2 || len(as.Rhs) != 1 {
+			return "", t.errf(x.Cond, "if with an init statement of this shape")
+		}
+		v, ok1 := as.Lhs[0].(*ast.Ident)
+		okv, ok2 := as.Lhs[1].(*ast.Ident)
+		ta, ok3 := as.Rhs[0].(*ast.TypeAssertExpr)
+		if !ok1 || !ok2 || !ok3 || ta.Type == nil || !c17IsToolIface(c17Type(ta.Type)) || t.typeOf(ta.X) != "tool.BaseTool" {
+			return "", t.errf(x.Cond, "if with an init statement of this shape")
+		}
+		if vt, _ := t.lookup(v.Name); vt != c17Type(ta.Type) {
+			return "", t.errf(x.Cond, "type assertion into a variable of another type")
+		}
+		if bt, _ := t.lookup(okv.Name); bt != "bool" {
+			return "", t.errf(x.Cond, "type assertion: ok variable")
+		}
+		p, s, err := t.expr(ta.X)
+		if err != nil || len(p) > 0 {
+			return "", t.errf(ta.X, "type assertion operand")
+		}
+		initLets = "let " + v.Name + " := (assert_" + strings.TrimPrefix(c17Type(ta.Type), "tool.") + " " + s + ") in\n" +
+			"let " + okv.Name + " := (negb (is_nil " + v.Name + ")) in\n"
 	}
 	pre, c, err := t.expr(x.Cond)
 	if err != nil {
 		return "", err
+	}
+	if initLets != "" {
+		pre = append([]string{initLets}, pre...)
 	}
 	els, hasElse := c17ElseList(x)
 	bodyT := c17Terminates(x.Body.List)
@@ -1395,6 +1561,41 @@ func (t *c17T) forStmt(x *ast.ForStmt, rest []ast.Stmt, fall string) (string, er
 }
 
 func (t *c17T) rangeStmt(x *ast.RangeStmt, rest []ast.Stmt, fall string) (string, error) {
+	if t.mode == "res" { // for i, v := range xs { ... }  =  for i := 0; i < len(xs); i++ { v := xs[i]; ... }
+		kv, ok1 := x.Key.(*ast.Ident)
+		vv, ok2 := x.Value.(*ast.Ident)
+		if !ok1 || !ok2 || x.Tok != token.DEFINE || kv.Name == "_" || vv.Name == "_" || !strings.HasPrefix(t.typeOf(x.X), "[]") || t.isOptSlice(x.X) {
+			return "", t.errf(nil, "range loop of this shape")
+		}
+		p, xs, err := t.expr(x.X)
+		if err != nil || len(p) > 0 {
+			return "", t.errf(x.X, "range over this expression")
+		}
+		vs := t.assigned(x.Body.List)
+		for _, v := range vs {
+			if v == kv.Name || v == vv.Name || v == xs {
+				return "", t.errf(nil, "a range variable or the slice is assigned in the body")
+			}
+		}
+		t.push()
+		t.declare(kv.Name, "int")
+		t.declare(vv.Name, strings.TrimPrefix(t.typeOf(x.X), "[]"))
+		t.loopVars = append(t.loopVars, kv.Name, vv.Name)
+		t.loopFall = append(t.loopFall, "Ok "+c17Tup(vs))
+		body, err := t.stmts(x.Body.List, "Ok "+c17Tup(vs))
+		t.loopFall = t.loopFall[:len(t.loopFall)-1]
+		t.loopVars = t.loopVars[:len(t.loopVars)-2]
+		t.pop()
+		if err != nil {
+			return "", err
+		}
+		k, err := t.stmts(rest, fall)
+		if err != nil {
+			return "", err
+		}
+		pat := c17Pat(vs)
+		return "do " + strings.TrimPrefix(pat, "'") + " <- for_up 0%Z (sl_len " + xs + ") (fun " + kv.Name + " " + pat + " =>\ndo " + vv.Name + " <- sl_get " + xs + " " + kv.Name + ";\n" + body + ") " + c17Tup(vs) + ";\n" + k, nil
+	}
 	if t.mode != "pure" || !c17IsIdent(x.Key, "_") || x.Tok != token.DEFINE {
 		return "", t.errf(nil, "range loop of this shape")
 	}
@@ -1435,6 +1636,8 @@ type c17Sig struct {
 }
 
 var c17Sigs = map[string]c17Sig{
+	"convTools":               {"", "(context.Context,[]tool.BaseTool)(*toolsTuple,error)", "(ctx : CTX) (tools : list BT)", "res (toolsTuple META RP)", "res"},
+	"NewToolNode":             {"", "(context.Context,*ToolsNodeConfig)(*ToolsNode,error)", "(ctx : CTX) (conf : ToolsNodeConfig BT)", "res (ToolsNode META RP)", "res"},
 	"getToolsNodeOptions":     {"", "([]ToolsNodeOption)*toolsNodeOptions", "(opts : list (toolsNodeOptions BT TOPT -> toolsNodeOptions BT TOPT))", "toolsNodeOptions BT TOPT", "pure"},
 	"WithToolOption":          {"", "([]tool.Option)ToolsNodeOption", "(opts : list TOPT)", "toolsNodeOptions BT TOPT -> toolsNodeOptions BT TOPT", "pure"},
 	"WithToolList":            {"", "([]tool.BaseTool)ToolsNodeOption", "(tool : option (list BT))", "toolsNodeOptions BT TOPT -> toolsNodeOptions BT TOPT", "pure"},
@@ -1446,7 +1649,7 @@ var c17Sigs = map[string]c17Sig{
 	"Stream":                  {"*ToolsNode", "(context.Context,*schema.Message,[]ToolsNodeOption)(*schema.StreamReader[[]*schema.Message],error)", "(tn : ToolsNode META RP) (ctx : CTX) (input : Message) (opts : list (toolsNodeOptions BT TOPT -> toolsNodeOptions BT TOPT))", "res (merged_stream (list (option tmsg)))", "res"},
 }
 
-var c17Order = []string{"getToolsNodeOptions", "WithToolOption", "WithToolList", "newUnknownToolTask", "genToolCallTasks",
+var c17Order = []string{"convTools", "NewToolNode", "getToolsNodeOptions", "WithToolOption", "WithToolList", "newUnknownToolTask", "genToolCallTasks",
 	"runToolCallTaskByInvoke", "runToolCallTaskByStream", "Invoke", "Stream"}
 
 func c17GoSig(fd *ast.FuncDecl) string {
@@ -1862,6 +2065,7 @@ var c17WantStructs = map[string]string{
 	"toolsTuple":       "indexes:map[string]int meta:[]*executorMeta rps:[]*runnablePacker[...]",
 	"toolCallTask":     "r:*runnablePacker[...] meta:*executorMeta name:string arg:string callID:string output:string sOutput:*schema.StreamReader[string] err:error",
 	"toolCallInfo":     "toolCallID:string",
+	"ToolsNodeConfig":  "Tools:[]tool.BaseTool UnknownToolsHandler:func",
 }
 
 func c17Structs(f *ast.File, into map[string][]c17Field) {
@@ -1908,7 +2112,18 @@ func c17ExtractToolNode(repo string) (string, string, error) {
 	// the fields of the schema structs that the vocabulary knows
 	schemaStructs := map[string][]c17Field{}
 	c17Structs(mf, schemaStructs)
-	for st, fields := range map[string][]string{"Message": {"Role", "ToolCalls"}, "ToolCall": {"ID", "Function"}, "FunctionCall": {"Name", "Arguments"}} {
+	tf, err := c17ParseGo(fset, repo, "schema", "tool.go")
+	if err != nil {
+		return "", "", err
+	}
+	c17Structs(tf, schemaStructs)
+	gn, err := c17ParseGo(fset, repo, "compose", "graph_node.go")
+	if err != nil {
+		return "", "", err
+	}
+	c17Structs(gn, schemaStructs)
+	for st, fields := range map[string][]string{"Message": {"Role", "ToolCalls"}, "ToolCall": {"ID", "Function"}, "FunctionCall": {"Name", "Arguments"},
+		"ToolInfo": {"Name"}, "executorMeta": {"isComponentCallbackEnabled"}} {
 		for _, fn := range fields {
 			found := false
 			for _, fl := range schemaStructs[st] {
@@ -1943,14 +2158,21 @@ func c17ExtractToolNode(repo string) (string, string, error) {
 	}
 	b.WriteString(par)
 	b.WriteString("Section Gen.\n" +
-		"  (* what is not translated: the tool values, the tool options, executorMeta, the runnable packers and what running\n" +
-		"     one means, convTools, and the semantics of parallelRunToolCall (Model/ToolsPar.v) *)\n" +
+		"  (* what is not translated: the tool values (their Info, which run interfaces they implement, their run methods), the\n" +
+		"     tool options, executorMeta, the runnable packers and what running one means, and the semantics of\n" +
+		"     parallelRunToolCall (Model/ToolsPar.v) *)\n" +
 		"  Variables BT TOPT META RP : Type.\n" +
 		"  Variable executorMeta_opaque : META.\n" +
-		"  Variable newRunnablePacker : (CTX -> string -> list TOPT -> tres) -> option unit -> option unit -> option unit -> bool -> option RP.\n" +
+		"  Variable newRunnablePacker : option (CTX -> string -> list TOPT -> tres) -> option (CTX -> string -> list TOPT -> sres) ->\n" +
+		"                               option unit -> option unit -> bool -> option RP.\n" +
+		"  Variable BT_Info : BT -> CTX -> res ToolInfo.\n" +
+		"  Variables assert_StreamableTool assert_InvokableTool : BT -> option BT.\n" +
+		"  Variable BT_StreamableRun : option BT -> option (CTX -> string -> list TOPT -> sres).\n" +
+		"  Variable BT_InvokableRun : option BT -> option (CTX -> string -> list TOPT -> tres).\n" +
+		"  Variable parseExecutorInfoFromComponent : unit -> option BT -> option META.\n" +
+		"  Variable executorMeta_isComponentCallbackEnabled : option META -> bool.\n" +
 		"  Variable RP_Invoke : option RP -> CTX -> string -> list TOPT -> res (string * option N).\n" +
 		"  Variable RP_Stream : option RP -> CTX -> string -> list TOPT -> res (option SR * option N).\n" +
-		"  Variable convTools : CTX -> option (list BT) -> res (toolsTuple META RP).\n" +
 		"  Variable parallelRunToolCall : CTX -> (CTX -> toolCallTask META RP -> list TOPT -> res (toolCallTask META RP)) ->\n" +
 		"                                 list (toolCallTask META RP) -> list TOPT -> res (list (toolCallTask META RP)).\n\n")
 	for _, name := range c17Order {
